@@ -19,6 +19,7 @@ func init() {
 			{"CONFINEMENT", ruleBusConfinement},
 			{"BUS-SEND-LOCKED", ruleBusSendLocked},
 			{"CONCTXN-WRAP", ruleConcTxnWrap},
+			{"TXN-AFTER-LOCK", ruleTxnAfterLock},
 			{"MERGE-QUEUE", ruleMergeQueue},
 			{"MERGE-SERIAL", ruleMergeSerial},
 		},
